@@ -15,7 +15,7 @@ ANCHORS = ['mpilot/libraries/eems/fuzzy.py:FuzzyOr.execute', 'mpilot/libraries/e
 LEVEL = "exploration"
 RULE = ("operator x parameter x input-order x layout cases; n<=3 inputs enumerate the complete 18^n value/missing lattice as "
         "array cells (rank 2-3 shapes also with inputs in Fortran-order / strided / negative-stride memory), n=4,5 sample cell tuples; a case is distinct by (operator, n, params, layout rank, order class)")
-REQUIRED_COUNTERS = ["ref_postconditions", "law_checks", "cells_compared", "repeated_field_cases", "mixed_dtype_cases", "saturated_field_cases", "memory_layout_cases"]
+REQUIRED_COUNTERS = ["ref_postconditions", "law_checks", "cells_compared", "repeated_field_cases", "mixed_dtype_cases", "saturated_field_cases", "memory_layout_cases", "plain_ndarray_cases"]
 EXHAUSTIVE_NOTE = "complete {17 fuzzy values + missing}^n lattice for n = 1, 2, 3 in both tiers"
 ASSUMPTIONS = ["reference models in mpv/ref.py (exact rationals) are the EEMS definitions as stated in the property",
                "numpy masked-array primitives are trusted", "FuzzyXOr with one input, k outside 1..n and zero weight sums are don't-care"]
@@ -37,9 +37,12 @@ def sampled_columns(rng, n, count):
     return [[rng.choice(VALUES) for _ in range(count)] for _ in range(n)]
 
 
-def build_inputs(cols, shape, payload=0.0, dtypes=None, mem=None):
+def build_inputs(cols, shape, payload=0.0, dtypes=None, mem=None, plain=()):
     out = []
     for k, col in enumerate(cols):
+        if k in plain:
+            out.append(numpy.array(col, dtype="float64").reshape(shape))
+            continue
         dt = dtypes[k] if dtypes else "float64"
         pl = payload if not dt.startswith("int") else 0
         data = numpy.array([pl if v is None else v for v in col], dtype=dt).reshape(shape)
@@ -139,6 +142,19 @@ def cases(ctx):
         if rng.random() < 0.5:
             c["mem"] = [rng.choice(arr.LAYOUTS + (None,)) for _ in range(n)]
         yield c
+    # plain ndarrays (nothing missing) among masked fields, in any position; weights given as NumPy scalars
+    for r in range(ctx.n(40, 2000)):
+        n = rng.choice([2, 3, 3, 4])
+        op = rng.choice([o for o in OPS if o != "FuzzyNot"])
+        order = list(range(n))
+        rng.shuffle(order)
+        ps = param_sets(rng, op, n, ctx.quick)
+        c = {"kind": "sampled", "n": n, "op": op, "params": rng.choice(ps), "shape": [300], "order": order, "count": 300, "rseed": rng.randrange(10 ** 9),
+             "plain": sorted(rng.sample(range(n), rng.randint(1, n - 1)))}
+        if op == "FuzzyWeightedUnion" and rng.random() < 0.7:
+            c["weights_as"] = rng.choice(["float32", "float16", "float64", "int8", "int64"])
+            c["params"] = {"Weights": [rng.choice([1, 2, 3, 5]) if c["weights_as"].startswith("int") else rng.choice([0.5, 1.5, 2.25, 3.0, 0.75]) for _ in range(n)]}
+        yield c
 
 
 def _columns(case):
@@ -152,6 +168,8 @@ def _columns(case):
         for k, dt in enumerate(case.get("dtypes") or []):
             if dt.startswith("int"):     # crisp fields: fully false / undetermined / fully true
                 cols[k] = [None if v is None else float(round(v)) for v in cols[k]]
+        for k in case.get("plain") or []:
+            cols[k] = [0.125 if v is None else v for v in cols[k]]       # a plain ndarray has nothing missing
         return cols
     return [[None if v is None else float(v) for v in col] for col in case["cols"]]
 
@@ -160,6 +178,16 @@ def _weights_for(params, order):
     p = dict(params)
     if "Weights" in p:
         p["Weights"] = [params["Weights"][i] for i in order]
+    return p
+
+
+def _weights_as(params, how):
+    """The same weights handed over as NumPy scalars (what the programming interface may be given)."""
+    if not how or "Weights" not in params:
+        return params
+    conv = {"float32": numpy.float32, "float16": numpy.float16, "float64": numpy.float64, "int8": numpy.int8, "int64": numpy.int64}[how]
+    p = dict(params)
+    p["Weights"] = [conv(w) for w in params["Weights"]]
     return p
 
 
@@ -190,22 +218,26 @@ def run_case(ctx, case):
     mem = case.get("mem")
     if mem:
         ctx.count("memory_layout_cases")
-    inputs = build_inputs(ocols, shape, payload=ctx.rng("payload", op, n).choice([0.0, 1e30, -1e30, 0.5]), dtypes=odt, mem=[mem[i] for i in order] if mem else None)
+    plain = [order.index(k) for k in case.get("plain") or []]
+    if plain:
+        ctx.count("plain_ndarray_cases")
+    inputs = build_inputs(ocols, shape, payload=ctx.rng("payload", op, n).choice([0.0, 1e30, -1e30, 0.5]), dtypes=odt, mem=[mem[i] for i in order] if mem else None, plain=plain)
+    call_params = _weights_as(oparams, case.get("weights_as"))
     if refs:
         ctx.count("repeated_field_cases")
         ocols = [ocols[i] for i in refs]
     if dtypes:
         ctx.count("mixed_dtype_cases")
-    ctx.feature((op, n, tuple(sorted((k, str(v)) for k, v in params.items())), len(shape), "identity" if order == sorted(order) else "permuted", bool(refs), tuple(odt or ()), tuple(m or "C" for m in mem) if mem else ()))
+    ctx.feature((op, n, tuple(sorted((k, str(v)) for k, v in params.items())), len(shape), "identity" if order == sorted(order) else "permuted", bool(refs), tuple(odt or ()), tuple(m or "C" for m in mem) if mem else (), tuple(plain), case.get("weights_as")))
     ctx.count("operator_calls")
     fcols = [[None if v is None else Fraction(v) for v in c] for c in ocols]
     try:
         want, scale = ref.MODELS[op](fcols, oparams)
     except ref.Undefined as e:
         ctx.dontcare("%s: %s" % (op, e))
-        out = _call(op, inputs, oparams, refs)
+        out = _call(op, inputs, call_params, refs)
         return
-    out = _call(op, inputs, oparams, refs)
+    out = _call(op, inputs, call_params, refs)
     rk = _rank_key(shape)
     if not out.ok:
         ctx.fail("%s:raises-%s:%s" % (op, out.inner() or out.err, rk), {"error": repr(out.exc)[:300], "n": n, "params": params, "shape": list(shape)},
@@ -221,7 +253,7 @@ def run_case(ctx, case):
     if bad:
         kind, i, g, w = bad
         small = _one_cell_case(case, cols, i) if i is not None and not refs and not dtypes else case
-        nclass = ("n%d" % n if n <= 2 else "n>=3") + (":non-contiguous-input" if mem else "")
+        nclass = ("n%d" % n if n <= 2 else "n>=3") + (":non-contiguous-input" if mem else "") + (":plain-ndarray-among-inputs" if plain else "") + (":weights-as-%s" % case["weights_as"] if case.get("weights_as") else "")
         ctx.fail("%s:%s:%s:%s" % (op, kind, nclass, rk),
                  {"cell_inputs": [c[i] for c in ocols] if i is not None else None, "got": g, "want": w, "params": oparams, "shape": list(shape)}, small)
         return
